@@ -437,10 +437,14 @@ theorem nameUpdate_good (params : List Nat) (s : BState) (ch : Ch) (h : BInv s) 
     split
     · rename_i hl
       exact ⟨_, rfl, rfl, hpc, hsz, (fun nt h' => by
-        simp only [Option.some.injEq] at h'; subst h'; exact ⟨Nat.le_refl _, Or.inl hl⟩),
+        simp only [Option.some.injEq] at h'; subst h'
+        refine ⟨Nat.le_refl _, ?_⟩
+        rcases hl.1 with h1 | h1
+        · exact Or.inl h1
+        · exact Or.inr (Or.inr h1)),
         (fun nt h' => by simp only [Option.some.injEq] at h'; exact Or.inr h'.symm)⟩
-    · exact ⟨s, rfl, rfl, hpc, hsz, (fun nt h' => by rw [hn] at h'; cases h'),
-        (fun nt h' => by rw [hn] at h'; cases h')⟩
+    · exact ⟨_, rfl, rfl, hpc, hsz, (fun nt h' => by simp only [hn] at h'; cases h'),
+        (fun nt h' => by simp only [hn] at h'; cases h')⟩
   | some nt0 =>
     have hnm := h.name nt0 hn
     simp only
@@ -456,19 +460,17 @@ theorem nameUpdate_good (params : List Nat) (s : BState) (ch : Ch) (h : BInv s) 
         omega
       · exact ⟨_, rfl, rfl, hpc, hsz, (fun nt h' => by cases h'), (fun nt h' => by cases h')⟩
     · rename_i hid
-      refine ⟨s, rfl, rfl, hpc, hsz, (fun nt h' => ?_), (fun nt h' => ?_)⟩
-      · rw [hn] at h'
-        simp only [Option.some.injEq] at h'
+      refine ⟨_, rfl, rfl, hpc, hsz, (fun nt h' => ?_), (fun nt h' => ?_)⟩
+      · simp only [hn, Option.some.injEq] at h'
         subst h'
-        refine ⟨by omega, ?_⟩
+        refine ⟨by show nt0 ≤ s.buf.length; omega, ?_⟩
         unfold isIdent
         simp only [Decidable.not_not] at hid
         rcases hid with h1 | h1 | h1
         · exact Or.inl h1
         · exact Or.inr (Or.inl h1)
         · exact Or.inr (Or.inr h1)
-      · rw [hn] at h'
-        simp only [Option.some.injEq] at h'
+      · simp only [hn, Option.some.injEq] at h'
         subst h'
         exact Or.inl hnm.2
 
@@ -513,7 +515,7 @@ theorem bodyStep_good (isDefine : Bool) (params : List Nat) (s : BState) (h : BI
         | nil => rw [hb] at hne; simp at hne
         | cons b bs =>
           simp only
-          apply binv_none (s := { r := r1, pc := .body, buf := (b :: bs).dropLast, nameTest := s.nameTest }) hr1 _ hn
+          apply binv_none (s := { r := r1, pc := .body, buf := (b :: bs).dropLast, nameTest := s.nameTest, inWord := s.inWord }) hr1 _ hn
             (fun l h' => by cases h')
           show (b :: bs).dropLast.length + mpMacroSlack ≤ maxMacroLen
           rw [hb] at hsz
